@@ -117,11 +117,12 @@ impl Quantizer {
         // we want to look in either two or three octaves to find the nearest note
         // it might be in the same octave as the input, but the nearest note might also be in the octave above or below
         // we can't go below octave zero or above MAX_OCTAVE, so there might be only two to check if we're near an edge
+        // the octaves must be visited in ascending order, the early returns below rely on rising candidate notes
         let mut octaves_to_search = Vec::<u32, 3>::new();
-        octaves_to_search.push(octave_num_of_vin).ok();
         if 1 <= octave_num_of_vin {
             octaves_to_search.push(octave_num_of_vin - 1).ok();
         }
+        octaves_to_search.push(octave_num_of_vin).ok();
         if octave_num_of_vin < MAX_OCTAVE {
             octaves_to_search.push(octave_num_of_vin + 1).ok();
         }
